@@ -1,6 +1,6 @@
 (* Corr_C16_proofs.v — the monitor of Corr_C16 accepts the model's own predictions, for every
    accepted event list: the singleflight LTS refines the abstract coalescing specification. *)
-From V Require Import Base Base_proofs CorrBase Singleflight Singleflight_proofs Corr_C16.
+From V Require Import Base Base_proofs GoQuote GoQuote_proofs CorrBase Singleflight Singleflight_proofs Corr_C16.
 From Coq Require Import Lia.
 
 Lemma arun_snoc {R} (tr : list (event R)) e : arun (tr ++ [e]) = astep (arun tr) e.
@@ -258,6 +258,20 @@ Qed.
 Lemma subject_eqb_refl a : subject_eqb a a = true.
 Proof. destruct a; simpl; rewrite ?str_eqb_refl; try reflexivity. simpl. apply strs_eqb_eq. reflexivity. Qed.
 
+Lemma bytes_b_spec s : bytes_b s = true -> bytes s.
+Proof.
+  unfold bytes_b, bytes. rewrite forallb_forall, Forall_forall. intros H x Hx. apply N.ltb_lt. apply H. exact Hx.
+Qed.
+Lemma q_bytes_b_spec q : q_bytes_b q = true -> q_bytes q.
+Proof.
+  assert (forall l, forallb bytes_b l = true -> all_bytes l) as HL.
+  { intros l H. unfold all_bytes. rewrite forallb_forall in H. apply Forall_forall. intros x Hx. apply bytes_b_spec. apply H. exact Hx. }
+  destruct q as [e s al|e m g|e k]; simpl; rewrite ?andb_true_iff.
+  - intros [[H1 H2] H3]. repeat split; auto using bytes_b_spec.
+  - intros [H1 H2]. split; auto using bytes_b_spec.
+  - apply bytes_b_spec.
+Qed.
+
 Lemma session_eqb_eq a b : session_eqb a b = true <-> a = b.
 Proof.
   unfold session_eqb. rewrite !andb_true_iff, !str_eqb_eq, !Z.eqb_eq, !strs_eqb_eq.
@@ -354,32 +368,18 @@ Proof.
   - eapply wquestion_is_question_of; eauto.
 Qed.
 
-(* a failing subject clause on the model's prediction always carries the signature of C16-K2
-   (the caller's or its leader's question violates the guard) or of C16-K3 (the two passed
-   different allowed groups to one wrapper object) *)
-Theorem monitor_subject_failure_explained tr w t :
-  wreach tr w -> (forall q, In q (questions tr) -> wf_question q = true) ->
-  thread (w_g w) t <> None -> guard_clause tr t = true -> allowed_clause tr t = true -> subject_clause tr t = true.
-Proof.
-  intros Hr Hwf Ht Hg Ha. destruct (clauses_resolve _ _ _ Hr Ht) as [c [q [qc [Hic [Hcc [Hin [Hinc [Hl [Hq Hqc]]]]]]]]].
-  unfold guard_clause in Hg. unfold allowed_clause in Ha. unfold subject_clause. rewrite Hl, Hq, Hqc in *.
-  apply andb_true_iff in Hg as [G1 G2]. rewrite Ha, andb_true_r.
-  rewrite (merged_same_subject tr w t c c q qc); auto; try apply subject_eqb_refl;
-    apply Hwf; eapply in_questions; eauto.
-Qed.
-
-(* under the guard, and when sharers pass the same allowed groups (a deployment: one wrapper
-   object per upstream), the subject clause holds of every caller in every run of the model *)
-Theorem monitor_subject_accepts_model tr w t :
+(* the subject clause holds of every caller in every run of the wrapper model — no guard: callers
+   that share an execution asked the same method about the same subject and allowed groups *)
+Theorem monitor_subject_accepts_model tr w t svc :
   wreach tr w ->
-  (forall q, In q (questions tr) -> wf_question q = true /\ guard q = true) ->
-  thread (w_g w) t <> None -> allowed_clause tr t = true -> subject_clause tr t = true.
+  (forall q, In q (questions tr) -> wf_question q = true /\ q_bytes q /\ service_of (q_endpoint q) = svc) ->
+  thread (w_g w) t <> None -> subject_clause tr t = true.
 Proof.
-  intros Hr Hq Ht Ha. apply (monitor_subject_failure_explained tr w t); auto.
-  - intros q Hin. apply (Hq q Hin).
-  - destruct (clauses_resolve _ _ _ Hr Ht) as [c [q [qc [_ [_ [Hin [Hinc [Hl [Hq1 Hqc]]]]]]]]].
-    unfold guard_clause. rewrite Hl, Hq1, Hqc.
-    destruct (Hq _ (in_questions _ _ _ Hin)) as [_ ->]. destruct (Hq _ (in_questions _ _ _ Hinc)) as [_ ->]. reflexivity.
+  intros Hr Hwf Ht. destruct (clauses_resolve _ _ _ Hr Ht) as [c [q [qc [Hic [Hcc [Hin [Hinc [Hl [Hq Hqc]]]]]]]]].
+  unfold subject_clause. rewrite Hl, Hq, Hqc.
+  destruct (Hwf _ (in_questions _ _ _ Hin)) as [W1 [B1 S1]]. destruct (Hwf _ (in_questions _ _ _ Hinc)) as [W2 [B2 S2]].
+  destruct (merged_same_subject tr w t c c q qc) as [_ [Hs Ha]]; auto; [congruence|].
+  rewrite Hs, Ha, subject_eqb_refl. apply strs_eqb_eq. reflexivity.
 Qed.
 
 (* a failing session clause on the model's prediction always carries the C16-K1 signature:
@@ -407,15 +407,14 @@ Qed.
    for every returned caller — is explained by the signature of a listed finding. Hence a case on
    which the implementation's observation equals the model's prediction (no mismatch) and the
    generic clause holds is never left unattributed by Corr_C16.judge. *)
-Theorem monitor_failures_explained tr w t c r n :
-  wreach tr w -> (forall q, In q (questions tr) -> wf_question q = true) ->
+Theorem monitor_failures_explained tr w t c r n svc :
+  wreach tr w ->
+  (forall q, In q (questions tr) -> wf_question q = true /\ q_bytes q /\ service_of (q_endpoint q) = svc) ->
   thread (w_g w) t = Some (Returned c r n) ->
   clause_failures_explained tr t (wsession w t) = true.
 Proof.
   intros Hr Hwf Ht. unfold clause_failures_explained. apply andb_true_iff. split.
-  - destruct (guard_clause tr t) eqn:G; [|rewrite orb_true_r; reflexivity].
-    destruct (allowed_clause tr t) eqn:A; [|apply orb_true_r].
-    rewrite (monitor_subject_failure_explained tr w t); auto. rewrite Ht. discriminate.
+  - apply (monitor_subject_accepts_model tr w t svc); auto. rewrite Ht. discriminate.
   - destruct (monitor_session_failure_explained _ _ _ _ _ _ Hr Ht) as [H|[H1 H2]].
     + rewrite H. reflexivity.
     + rewrite H1, H2. apply orb_true_r.
